@@ -19,8 +19,11 @@ Inductive action :=
 | AAttr (k v : str)          (* req.SetAttribute(k, v) *)
 | ASee (k : str)             (* append the value of attribute k, as seen here, to the event log *)
 | APanic (msg : str)         (* panic(msg) *)
-| ADelHeader (k : str).      (* resp.Header().Del(k): user code may drop a header the framework set (net/http does it
+| ADelHeader (k : str)       (* resp.Header().Del(k): user code may drop a header the framework set (net/http does it
                                 for Content-Encoding when answering 304) *)
+| APretty (b : bool)         (* resp.PrettyPrint(b): state of the *Response wrapper the script holds *)
+| AEntity (compact pretty : str). (* resp.WriteAsJson(v) for a fixed value: status 200, then the indented or the compact
+                                rendering (both computed with encoding/json by the harness), as the wrapper's switch says *)
 
 Record fscript := {
   f_id : str;
@@ -30,7 +33,11 @@ Record fscript := {
   f_fresh : bool;             (* passes on a NEW *Request wrapper (attributes start empty) *)
   f_mw : nat                  (* 0: a FilterFunction; 1 / 2: an http middleware adapted with HttpMiddlewareHandlerToFilter
                                  that passes on the same / a derived *http.Request: the adapter rebinds the SAME
-                                 *Request wrapper, so parameters and attributes flow through (filter_adapter.go:11) *)
+                                 *Request wrapper, so parameters and attributes flow through (filter_adapter.go:11) *);
+  f_wrap : bool               (* passes on restful.NewResponse(w) where w upper-cases every byte written through it:
+                                 what follows in the chain - later filters, the route function or plain handler, the
+                                 error writer - must write through that wrapper; a new wrapper starts with the
+                                 package's pretty-print default *)
 }.
 
 (* ---- the state one request works on ---- *)
@@ -43,25 +50,27 @@ Record rstate := {
   st_attrs : list (str * str);                (* attributes of the current *Request wrapper *)
   st_acq : nat;                               (* compressors acquired from the provider *)
   st_rel : nat;                               (* compressors released to the provider *)
-  st_recovered : nat                          (* calls of the recover handler *)
+  st_recovered : nat;                         (* calls of the recover handler *)
+  st_pretty : bool;                           (* prettyPrint of the current *Response wrapper *)
+  st_upper : nat                              (* upper-casing writers between the current wrapper and the container's writer *)
 }.
 
 Definition st0 (hdr : headers) : rstate :=
   {| st_status := None; st_hdr := hdr; st_raw := []; st_comp := None; st_log := [];
-     st_attrs := []; st_acq := 0; st_rel := 0; st_recovered := 0 |}.
+     st_attrs := []; st_acq := 0; st_rel := 0; st_recovered := 0; st_pretty := true; st_upper := 0 |}.
 
 Definition upd_log (s : rstate) (e : str) : rstate :=
   {| st_status := st_status s; st_hdr := st_hdr s; st_raw := st_raw s; st_comp := st_comp s;
      st_log := st_log s ++ [e]; st_attrs := st_attrs s; st_acq := st_acq s; st_rel := st_rel s;
-     st_recovered := st_recovered s |}.
+     st_recovered := st_recovered s; st_pretty := st_pretty s; st_upper := st_upper s |}.
 Definition upd_attrs (s : rstate) (a : list (str * str)) : rstate :=
   {| st_status := st_status s; st_hdr := st_hdr s; st_raw := st_raw s; st_comp := st_comp s;
      st_log := st_log s; st_attrs := a; st_acq := st_acq s; st_rel := st_rel s;
-     st_recovered := st_recovered s |}.
+     st_recovered := st_recovered s; st_pretty := st_pretty s; st_upper := st_upper s |}.
 Definition upd_hdr (s : rstate) (h : headers) : rstate :=
   {| st_status := st_status s; st_hdr := h; st_raw := st_raw s; st_comp := st_comp s;
      st_log := st_log s; st_attrs := st_attrs s; st_acq := st_acq s; st_rel := st_rel s;
-     st_recovered := st_recovered s |}.
+     st_recovered := st_recovered s; st_pretty := st_pretty s; st_upper := st_upper s |}.
 
 (* http.ResponseWriter.WriteHeader: the first status wins *)
 Definition write_header (s : rstate) (n : Z) : rstate :=
@@ -69,13 +78,20 @@ Definition write_header (s : rstate) (n : Z) : rstate :=
   | Some _ => s
   | None => {| st_status := Some n; st_hdr := st_hdr s; st_raw := st_raw s; st_comp := st_comp s;
                st_log := st_log s; st_attrs := st_attrs s; st_acq := st_acq s; st_rel := st_rel s;
-               st_recovered := st_recovered s |}
+               st_recovered := st_recovered s; st_pretty := st_pretty s; st_upper := st_upper s |}
   end.
 
 (* Write through the active writer: the compressor if one is installed and open
    (compress.go:40), refused when it is closed, else the underlying writer
    (which sends 200 first when no status was written) *)
-Definition write_body (s : rstate) (b : str) : rstate :=
+Definition upper_ascii_char (c : ascii) : ascii :=
+  let n := N_of_ascii c in
+  if N.leb 97 n && N.leb n 122 then ascii_of_N (n - 32) else c.
+Definition upper_ascii (s : str) : str := map upper_ascii_char s.
+
+Definition write_body (s : rstate) (b0 : str) : rstate :=
+  (* the bytes pass the upper-casing writers first, if the current wrapper sits on any *)
+  let b := if Nat.ltb 0 (st_upper s) then upper_ascii b0 else b0 in
   match st_comp s with
   | Some (c, chunks, false) =>
       (* the stream header reaches the underlying writer with the first Write, so a 200 is
@@ -84,14 +100,20 @@ Definition write_body (s : rstate) (b : str) : rstate :=
       {| st_status := st_status s; st_hdr := st_hdr s; st_raw := st_raw s;
          st_comp := Some (c, chunks ++ [b], false);
          st_log := st_log s; st_attrs := st_attrs s; st_acq := st_acq s; st_rel := st_rel s;
-         st_recovered := st_recovered s |}
+         st_recovered := st_recovered s; st_pretty := st_pretty s; st_upper := st_upper s |}
   | Some (_, _, true) => s
   | None =>
       let s := write_header s 200 in
       {| st_status := st_status s; st_hdr := st_hdr s; st_raw := st_raw s ++ [b]; st_comp := st_comp s;
          st_log := st_log s; st_attrs := st_attrs s; st_acq := st_acq s; st_rel := st_rel s;
-         st_recovered := st_recovered s |}
+         st_recovered := st_recovered s; st_pretty := st_pretty s; st_upper := st_upper s |}
   end.
+
+(* the *Response wrapper in use: its pretty-print switch and how many upper-casing writers it sits on *)
+Definition set_wrapper (s : rstate) (pretty : bool) (upper : nat) : rstate :=
+  {| st_status := st_status s; st_hdr := st_hdr s; st_raw := st_raw s; st_comp := st_comp s;
+     st_log := st_log s; st_attrs := st_attrs s; st_acq := st_acq s; st_rel := st_rel s;
+     st_recovered := st_recovered s; st_pretty := pretty; st_upper := upper |}.
 
 Inductive res := Done (s : rstate) | Panicked (msg : str) (s : rstate).
 Definition state_of (r : res) : rstate := match r with Done s => s | Panicked _ s => s end.
@@ -110,6 +132,8 @@ Definition run_action (a : action) (s : rstate) : res :=
   | ASee k => Done (upd_log s (L "see:" ++ k ++ L "=" ++ attr_get k (st_attrs s)))
   | APanic m => Panicked m s
   | ADelHeader k => Done (upd_hdr s (filter (fun kv => negb (str_eqb (fst kv) k)) (st_hdr s)))
+  | APretty b => Done (set_wrapper s b (st_upper s))
+  | AEntity c p => Done (write_body (write_header s 200) (if st_pretty s then p else c))
   end.
 
 Fixpoint run_actions (l : list action) (s : rstate) : res :=
@@ -128,9 +152,12 @@ Fixpoint run_chain (fs : list fscript) (target : rstate -> res) (s : rstate) : r
       if f_pass f then
         let outer := st_attrs s1 in
         let s1' := if f_fresh f then upd_attrs s1 [] else s1 in
-        bind (run_chain rest target s1') (fun s2 =>
+        let s1'' := if f_wrap f then set_wrapper s1' true (S (st_upper s1')) else s1' in
+        bind (run_chain rest target s1'') (fun s2 =>
         let s2' := if f_fresh f then upd_attrs s2 outer else s2 in
-        bind (run_actions (f_post f) s2') (fun s3 => Done (upd_log s3 (L "post:" ++ f_id f))))
+        (* back in this filter: its own wrapper again *)
+        let s2'' := if f_wrap f then set_wrapper s2' (st_pretty s1) (st_upper s1) else s2' in
+        bind (run_actions (f_post f) s2'') (fun s3 => Done (upd_log s3 (L "post:" ++ f_id f))))
       else
         bind (run_actions (f_post f) s1) (fun s3 => Done (upd_log s3 (L "post:" ++ f_id f))))
   end.
@@ -160,7 +187,7 @@ Definition install (c : coding) (s : rstate) : rstate :=
   {| st_status := st_status s; st_hdr := hset (st_hdr s) H_ContentEncoding (coding_name c);
      st_raw := st_raw s; st_comp := Some (c, [], false);
      st_log := st_log s; st_attrs := st_attrs s; st_acq := S (st_acq s); st_rel := st_rel s;
-     st_recovered := st_recovered s |}.
+     st_recovered := st_recovered s; st_pretty := st_pretty s; st_upper := st_upper s |}.
 
 (* compress.go:63 Close: refused when already closed; else close the stream (the frame
    goes to the underlying writer), release, nil the field *)
@@ -171,7 +198,7 @@ Definition close_comp (s : rstate) : rstate :=
       {| st_status := st_status s1; st_hdr := st_hdr s1; st_raw := st_raw s1;
          st_comp := Some (c, chunks, true);
          st_log := st_log s1; st_attrs := st_attrs s1; st_acq := st_acq s1; st_rel := S (st_rel s1);
-         st_recovered := st_recovered s1 |}
+         st_recovered := st_recovered s1; st_pretty := st_pretty s1; st_upper := st_upper s1 |}
   | _ => s
   end.
 
@@ -288,7 +315,9 @@ Definition dispatch (cfg : dcfg) (req : request) (already : bool) (s : rstate) :
                   run_actions (d_recover_script cfg)
                     {| st_status := st_status s'; st_hdr := st_hdr s'; st_raw := st_raw s'; st_comp := st_comp s';
                        st_log := st_log s' ++ [L "recover:" ++ m]; st_attrs := st_attrs s';
-                       st_acq := st_acq s'; st_rel := st_rel s'; st_recovered := S (st_recovered s') |}
+                       st_acq := st_acq s'; st_rel := st_rel s'; st_recovered := S (st_recovered s');
+                       (* the recover handler is handed the container's own writer: no wrapper of the chain is in between *)
+                       st_pretty := true; st_upper := 0 |}
                 else Panicked m s'
             end in
   match r2 with
